@@ -390,7 +390,12 @@ class Node:
                     return type(value) == type(default) and value == default
                 return bool(value == default)
 
-            return bool(value_node.value == default)
+            # empty collections
+            if isinstance(value_node, yaml.SequenceNode):
+                return default == [] and not value_node.value
+            if isinstance(value_node, yaml.MappingNode):
+                return default == {} and not value_node.value
+            return False
 
         defaults = defaulted_attributes(cls)
 
